@@ -453,6 +453,20 @@ def call_method(interp, recv, name, args, kwargs):
             if hasattr(z3, 'ReplaceAll'):
                 return wrap(z3.ReplaceAll(t, _s(old), _s(new)))
         raise Unsupported('str.replace (all occurrences) with symbolic pattern')
+    if name == 'zfill':
+        w = args[0]
+        if not isinstance(w, int) or isinstance(w, bool):
+            raise Unsupported('str.zfill with symbolic width')
+        # pad with zeros up to width w, after a leading sign: a case split on the (short) length, as a term
+        L = z3.Length(t)
+        signed = z3.Or(z3.PrefixOf(z3.StringVal('-'), t), z3.PrefixOf(z3.StringVal('+'), t))
+        res = t
+        for k in range(w - 1, -1, -1):
+            pad = z3.StringVal('0' * (w - k))
+            padded = z3.If(signed, z3.Concat(z3.SubString(t, 0, 1), pad, z3.SubString(t, 1, L - 1)),
+                           z3.Concat(pad, t))
+            res = z3.If(L == k, padded, res)
+        return wrap(res)
     if name == 'encode':
         raise Unsupported('str.encode on symbolic string')
     if name == '__len__':
